@@ -107,16 +107,16 @@ def f_tm(T):
             'accept': T.q_accept, 'reject': T.q_reject, 'blank': T.blank}
 
 
-def t_dfa(acc, n, k, shard, nshard, scheme='s'):
+def t_dfa(acc, n, k, shard, nshard, scheme='s', letters='ab'):
     from gambatools.dfa_algorithms import print_dfa, parse_dfa
     for idx in range(shard, spaces.dfa_size(n, k), nshard):
         spec = spaces.dfa_spec(n, k, idx)
-        rp = {'fn': 'mc.props.c16:one', 'mode': 'plain', 'params': {'kind': 'dfa', 'spec': spec, 'opt': scheme}}
-        D = spaces.build_dfa(spec, scheme)
+        rp = {'fn': 'mc.props.c16:one', 'mode': 'plain', 'params': {'kind': 'dfa', 'spec': spec, 'opt': [scheme, letters]}}
+        D = spaces.build_dfa(spec, scheme, letters)
         roundtrip(acc, 'DFA', {'dfa': spec, 'scheme': scheme}, rp, D, print_dfa, parse_dfa, f_dfa)
         if n >= 2 and k >= 1:
             acc.nontrivial += 1
-            acc.sample({'dfa': spaces.dfa_parts(spec, scheme), 'text': print_dfa(D)}) if idx % 97 == 5 else None
+            acc.sample({'dfa': spaces.dfa_parts(spec, scheme, letters), 'text': print_dfa(D)}) if idx % 97 == 5 else None
 
 
 def t_nfa(acc, space, shard, nshard, variants):
@@ -285,7 +285,7 @@ def one(acc, kind, spec, opt):
     spec = tup(spec)
     if kind == 'dfa':
         from gambatools.dfa_algorithms import print_dfa, parse_dfa
-        roundtrip(acc, 'DFA', {'dfa': spec}, None, spaces.build_dfa(spec, opt), print_dfa, parse_dfa, f_dfa)
+        roundtrip(acc, 'DFA', {'dfa': spec}, None, spaces.build_dfa(spec, *(opt if isinstance(opt, (list, tuple)) else [opt])), print_dfa, parse_dfa, f_dfa)
     elif kind == 'nfa':
         from gambatools.nfa_algorithms import print_nfa, parse_nfa
         roundtrip(acc, 'NFA', {'nfa': spec}, None, spaces.build_nfa(spec, *opt), print_nfa, parse_nfa, f_nfa)
@@ -338,12 +338,18 @@ def plan(tier, seed):
     add('t_tm', 2, w=1, g=3, blank='□', empty_sigma=False, kw={'gamma': ['a', '_', '□'], 'sigma': ['a', '_']})
     add('t_tm', 2, w=1, g=3, blank='□', empty_sigma=False, kw={'gamma': ['_', 'a', '□'], 'sigma': ['a'], 'order': 'symbols', 'names': ['Blank']})
     add('t_tm', 2, w=1, g=3, blank='b', empty_sigma=False, kw={'gamma': ['a', '_', 'b'], 'sigma': ['a'], 'names': ['q₀']})
-    for sch in ('u', 'g', 'K', 'f'):
+    for sch in ('u', 'g', 'K', 'f', 'n'):
         add('t_dfa', 1, n=2, k=2, scheme=sch)
         if sch != 'g':
             add('t_dfa', 1, n=3, k=1, scheme=sch)      # the third name of scheme g is the keyword accept: not a DFA state name
         add('t_pda', 2, n=2, k=1, g=1, t=2, stack=['x'], eps='_', scheme=sch)
-    add('t_nfa', 4, space=['nfa', 2, 1, None, False], variants=[['u', '_', 'sparse'], ['g', 'ε', 'sparse'], ['K', '_', 'total'], ['f', 'ε', 'sparse']])
+    add('t_nfa', 4, space=['nfa', 2, 1, None, False], variants=[['u', '_', 'sparse'], ['g', 'ε', 'sparse'], ['K', '_', 'total'], ['f', 'ε', 'sparse'], ['n', '_', 'sparse']])
+    # wave 6: code points that change under unicode normalisation as state names, input, stack and tape symbols
+    add('t_dfa', 1, n=2, k=2, scheme='n', letters='nf')
+    add('t_dfa', 1, n=1, k=3, scheme='s', letters='nf')
+    add('t_pda', 2, n=2, k=1, g=2, t=2, stack=['\u2126', '\u212a'], eps='_', scheme='n')
+    add('t_tm', 2, w=1, g=3, blank='_', empty_sigma=False, kw={'gamma': ['\u2126', 'K', '_'], 'sigma': ['\u2126'], 'names': ['\u212a']})
+    add('t_tm', 2, w=1, g=3, blank='\u212a', empty_sigma=False, kw={'gamma': ['a', 'K', '\u212a'], 'sigma': ['a', 'K']})
     add('t_pda', 2, n=2, k=1, g=2, t=2, stack=['γ', 'Ω'], eps='ε', scheme='u')
     for blank in ('_', '□'):
         for es in (False, True):
@@ -363,4 +369,4 @@ def plan(tier, seed):
     return {'tasks': tasks, 'bounds': {'spaces': 'DFA(n<=3,k<=2, k=0); NFA(1,k),(2,k) all x eps _/ε x encodings; NFA(3,1,<=3); PDA(1,1,1,<=4), PDA(2,1,1,<=3), PDA(2,2,1,<=2), PDA(2,1,2,<=2) with stack symbols x,$; TM(0,2), TM(1,2), TM(1,3), TM(2,2) with blank _/□ and Sigma possibly empty; RE({}) in 3 printers; expressible grammars of CFG2, CFG2+, CNF(3){}'.format(8 if q else 9, ' (strided)' if q else '')},
             'exhaustive': True,
             'rule': 'every object of the spaces with a printable epsilon/blank: parse(print(x)) compared field by field with x; expressions: exact language equality and identical printed form after re-parsing; grammars: == and own field-wise comparison; non-trivial = object with >= 2 transitions / >= 4 nodes / >= 3 rules',
-            'assumptions': ['epsilon \'\' is not printable and not in the space', 'only grammars expressible in the simple format (every variable has a rule, start variable owns the first rule)', 'state names that are keywords of OTHER formats (accept, reject, blank, ... for an NFA or PDA; epsilon, stack_symbols for a TM) are legal and in the space; %, #, &, $ as stack / tape symbols; grammar objects with epsilon symbol ε, _ or e; one text in three first goes through the generic parse_automaton', 'wave 5: every other parsed result is destroyed in place (grammars: first transformed by the in-place procedures) and the same text parsed again; TMs with one blank spelling as blank and the other as an ordinary symbol; names with non-decimal digits / outside latin-1 / keywords in another case / generated-looking; transition dicts filled in other orders']}
+            'assumptions': ['epsilon \'\' is not printable and not in the space', 'only grammars expressible in the simple format (every variable has a rule, start variable owns the first rule)', 'state names that are keywords of OTHER formats (accept, reject, blank, ... for an NFA or PDA; epsilon, stack_symbols for a TM) are legal and in the space; %, #, &, $ as stack / tape symbols; grammar objects with epsilon symbol ε, _ or e; one text in three first goes through the generic parse_automaton', 'wave 5: every other parsed result is destroyed in place (grammars: first transformed by the in-place procedures) and the same text parsed again; TMs with one blank spelling as blank and the other as an ordinary symbol; names with non-decimal digits / outside latin-1 / keywords in another case / generated-looking; transition dicts filled in other orders', 'wave 6: KELVIN SIGN / OHM SIGN / ANGSTROM SIGN (code points that unicode normalisation maps to K, Omega, A-ring) as names and symbols, next to their ordinary look-alikes']}
